@@ -82,6 +82,12 @@ def handle : List String → Option String
     match regularGrid xs ys grid (px.zip py) with
     | .error e => pure ("err " ++ showErr e)
     | .ok r => pure ("ok " ++ showRats r)
+  | ["c20", "bicubic", xs, ys, grid, px, py] => do
+    let xs ← parseRats? xs; let ys ← parseRats? ys; let grid ← parseRows? grid
+    let px ← parseRats? px; let py ← parseRats? py
+    match (px.zip py).mapM (fun p => bicubicAt xs ys grid p.1 p.2) with
+    | none => pure "err solver"
+    | some r => pure ("ok " ++ showRats r)
   | ["c20", "sun", mjd, frac] => do
     let mjd ← parseRat? mjd; let frac ← parseRat? frac
     let jd := mjd - sunEpoch
